@@ -636,7 +636,7 @@ fn main() {
     let code = if let Some(r) = replay {
         replay_main(&prop, &r)
     } else if let Some((s, n)) = worker {
-        worker_main(&prop, tier, seed, s, n, &out.expect("--out"))
+        worker_main(&prop, tier, seed, s, n, &out.expect("--out"), None)
     } else {
         parent_main(&prop, tier, seed)
     };
